@@ -654,6 +654,9 @@ func cmdCheck(args []string) int {
 	}
 	sort.Strings(gaps)
 	cov["probe_gaps"] = gaps
+	if p.Assumes == nil {
+		p.Assumes = []string{}
+	}
 	ev := evidence{PropertyID: p.ID, Tier: *tier, Seed: int64(batch), Level: p.Level, Coverage: cov, Assumptions: p.Assumes, WallS: wall, Violations: nviol}
 	bz, _ := json.MarshalIndent(ev, "", " ")
 	_ = os.MkdirAll(filepath.Join(verifDir(), "evidence"), 0o755)
